@@ -13,6 +13,11 @@ A module spec is a JSON-able dict:
   compliance True -> a MODULE-COMPLIANCE statement is present
   variant    'ok' or a defect name (see VARIANTS)
   smiv1      True -> SMIv1 flavour (RFC1155-SMI / RFC-1212 imports)
+  enumtc     True -> the module defines an enumerated type and a refinement of it
+             (<Cap>EnumBase ::= INTEGER { alpha(1), beta(2), gamma(3) };
+              <Cap>EnumSub ::= <Cap>EnumBase { alpha(1) }), declared after the objects
+  enumuse    name of an imported module with `enumtc` (or the module itself): an object
+             of the refined type with DEFVAL { alpha } under arc 61
 The OID-parent relation is kept acyclic by the set generator even when the
 import graph has cycles.
 """
@@ -89,11 +94,30 @@ def defined_oids(spec, allspecs):
             out.append(dr + (7000 + spec['arc'] % 1000,))
     if spec.get('oiddefval') and not spec.get('smiv1'):
         out.append(r + (60,))
+    if enum_source(spec, allspecs):
+        out.append(r + (61,))
     if spec.get('compliance') and not spec.get('smiv1'):
         out.append(r + (9999,))
         if spec.get('arcs'):
             out.append(r + (9998,))
     return out
+
+
+def cap(name):
+    s = sym(name)
+    return s[:1].upper() + s[1:]
+
+
+def enum_source(spec, allspecs):
+    """module whose refined enumeration this module's extra object uses, or None"""
+    d = spec.get('enumuse')
+    if not d or spec.get('smiv1'):
+        return None
+    if d == spec['name']:
+        return d if spec.get('enumtc') else None
+    if allspecs and d in spec.get('imports', []) and d in allspecs and allspecs[d].get('enumtc') and not allspecs[d].get('smiv1'):
+        return d
+    return None
 
 
 def dotted(t):
@@ -129,6 +153,8 @@ def render(spec, allspecs=None):
         extra = ''
         if v == 'badref' and d == spec.get('oidparent'):
             extra = ', %sNoSuchNode' % sym(d)
+        if d != name and enum_source(spec, allspecs) == d:
+            extra += ', %sEnumSub' % cap(d)
         lines.append('    %s%s FROM %s' % (root_sym(d), extra, spec.get('spell', {}).get(d, d)))
     dd = spec.get('defval_dep')
     if dd and spec.get('oiddefval') and not spec.get('smiv1'):
@@ -206,6 +232,12 @@ def render(spec, allspecs=None):
             tgt = spec.get('defval_sym') or root_sym(dd)
         lines += ['%sOidObj OBJECT-TYPE' % sym(name), '    SYNTAX OBJECT IDENTIFIER', '    MAX-ACCESS read-write', '    STATUS current',
                   '    DESCRIPTION "an OID-valued object whose default names an imported node"', '    DEFVAL { %s }' % tgt, '    ::= { %s 60 }' % me, '']
+    es = enum_source(spec, allspecs)
+    if es:
+        lines += ['%sEnumObj OBJECT-TYPE' % sym(name), '    SYNTAX %sEnumSub' % cap(es), '    MAX-ACCESS read-write', '    STATUS current',
+                  '    DESCRIPTION "object of a refined enumerated type with a default"', '    DEFVAL { alpha }', '    ::= { %s 61 }' % me, '']
+    if spec.get('enumtc') and not spec.get('smiv1'):
+        lines += ['%sEnumBase ::= INTEGER { alpha(1), beta(2), gamma(3) }' % cap(name), '%sEnumSub ::= %sEnumBase { alpha(1) }' % (cap(name), cap(name)), '']
     if spec.get('fakeidx'):
         t = sym(name)
         acc, st = ('ACCESS', 'mandatory') if spec.get('smiv1') else ('MAX-ACCESS', 'current')
@@ -274,7 +306,7 @@ NAME_POOL = ['AAA-MIB', 'BBB-MIB', 'CCC-MIB', 'DDD-MIB', 'EEE-MIB', 'FFF-MIB', '
 ARC_POOL = [1, 2, 4, 10, 48, 100, 4800, 99999]
 
 
-def gen_modules(rng, n, cycles=True, defects=0.0, compliance=0.3, identity=0.7, smiv1=0.0, oiddefval=0.0):
+def gen_modules(rng, n, cycles=True, defects=0.0, compliance=0.3, identity=0.7, smiv1=0.0, oiddefval=0.0, enumtc=0.0):
     """-> dict name -> spec.  Import graph: random, with back edges and self
     imports when `cycles`; OID parents only point to lower-ranked modules."""
     names = NAME_POOL[:n]
@@ -320,6 +352,14 @@ def gen_modules(rng, n, cycles=True, defects=0.0, compliance=0.3, identity=0.7, 
                 spec['defval_dep'] = rng.choice(others)
                 if rng.random() < 0.4:
                     spec['defval_sym'] = sym(spec['defval_dep']) + 'NoSuchNode'
+        if enumtc and rng.random() < enumtc:
+            spec['enumtc'] = True
+            if rng.random() < 0.3:
+                spec['enumuse'] = name
+        if enumtc:
+            cands = [d for d in imports if d in specs and specs[d].get('enumtc') and not specs[d].get('smiv1')]
+            if cands and rng.random() < 0.7:
+                spec['enumuse'] = rng.choice(cands)
         if rng.random() < defects:
             spec['variant'] = rng.choice(DEFECTS)
         specs[name] = spec
